@@ -849,8 +849,8 @@ def cmd_qstat(st, argv, stdin, cwd):
             % (st_attr, j["id"], esc(j["name"]), j["user"], sge_code(j))
         )
 
-    run = [j for j in jobs if j["phase"] == "running"]
-    pend = [j for j in jobs if j["phase"] != "running"]
+    run = [j for j in jobs if j["phase"] == "running" or j.get("code") in ("dr", "dt")]
+    pend = [j for j in jobs if j not in run]
     out = "<?xml version='1.0'?>\n<job_info  xmlns:xsd=\"http://www.w3.org/2001/XMLSchema\">\n  <queue_info>\n"
     if full:
         out += "    <Queue-List>\n      <name>all.q@node1</name>\n      <qtype>BIP</qtype>\n      <slots_used>%d</slots_used>\n      <slots_total>64</slots_total>\n" % len(run)
@@ -891,8 +891,13 @@ def cmd_qdel(st, argv, stdin, cwd, store):
                 err += "me - you do not have the necessary privileges to delete the job \"%s\"\n" % tok
                 rc = 1
             else:
+                was_running = j["phase"] == "running"
                 _cancel(st, store, j)
-                out += "me has deleted job %s\n" % j["id"]
+                if was_running and st["config"].get("qdel_lingers"):
+                    # deletion registered, the job is still listed while the execution host tears it down
+                    j["in_queue"] = True
+                    j["code"] = "dr"
+                out += "me has registered the job %s for deletion\n" % j["id"] if was_running else "me has deleted job %s\n" % j["id"]
     return Reply(out=out, err=err, rc=rc)
 
 
